@@ -136,6 +136,22 @@ def run(ctx):
     for tr, ep, ls in items:
         index.append((len(lines), len(ls), tr, ep))
         lines += ls + ["reset"]
+        for l in ls:
+            t = l.split(" ")
+            if t[:2] == ["tx", "retire"]:
+                ctx.count("c13:tx-retire:dcid-" + ("known" if t[3] != "-" else "unknown"))
+            elif t[:2] == ["tx", "ncid"]:
+                ctx.count("c13:tx-ncid")
+            elif t[:2] == ["rx", "retire"]:
+                ctx.count("c13:rx-retire")
+            elif t[0] == "tp":
+                ctx.count("c13:peer-limit:" + t[1])
+    for tr in collected:
+        for r in tr.recs:
+            if r.kind == "ev" and r.name == "transport:endpoint_datagram_dropped":
+                ctx.count("c13:endpoint-datagram-dropped")
+            elif r.kind == "app" and r.what == "rebind":
+                ctx.count("c13:rebinds")
     if lines:
         rc, out, err = run_lines([DRIVER, "cid-trace"], lines)
         ok_run = rc == 0 and len(out) == len(lines)
